@@ -473,7 +473,7 @@ def session_check(cfg):
             tr = os.path.join(d, f"tr_{tag}.ndjson")
             n = sess.postprocess(raw, tr)
             r = sess.validate(d, tr, known, cfg.get("val_timeout", 900))
-            r["n"], r["scs"], r["raw"] = n, scs, raw
+            r["n"], r["scs"], r["raw"], r["trace"] = n, scs, raw, tr
             return r
 
         def handle(r, tag):
@@ -490,6 +490,13 @@ def session_check(cfg):
                         break
                 payload = {"property": prop, "kind": "session-scenario", "scenario": bad[1] if bad else r["scs"],
                            "detail": (bad[2] if bad else r).get("detail"), "meaning": cfg.get("meaning", {})}
+                # keep the recording that was rejected (schedules differ from run to run)
+                keep = os.path.join(vlib.WORK, "replay", f"{prop}_{tag}_{len(violations)}_rejected_trace.ndjson")
+                os.makedirs(os.path.dirname(keep), exist_ok=True)
+                src_tr = (bad[2] if bad else r).get("trace")
+                if src_tr and os.path.exists(src_tr):
+                    shutil.copy(src_tr, keep)
+                    payload["rejected_trace"] = keep
                 p = vlib.save_replay(prop, f"{tag}_{len(violations)}", payload)
                 violations.append({"replay": p, "what": "no interleaving of the session logs is a behaviour of the specification: %s"
                                    % str((bad[2] if bad else r).get("detail", {}))[:600]})
